@@ -62,6 +62,36 @@ def check(index, ctx):
     n_part = partition_rule(ctx, P, rs, "R1")
     ctx.floor("row-block partitions analysed", n_part, 3)
     sweeps_and_guard(index, _InstanceBacked(index, ctx))
+    # vmap's own chunk_size splits the block again: the VJP callable (one autograd.grad, one retain_graph flag) then runs several times per block
+    P0, rs0 = _pipe.runs(index)
+    seen_v = set()
+    for run in rs0:
+        for res in run.results:
+            for e in _pipe.evs(res, "vmap"):
+                if not e.get("chunk_given") or e["loc"] in seen_v:
+                    continue
+                seen_v.add(e["loc"])
+                k_ = f"{_layout.short_fn(e)}: torch.vmap(chunk_size=...) covers the whole block"
+                if e.get("chunk_is_dim"):
+                    ctx.ok("R2", k_, "chunk_size is the number of rows of the block itself", e["loc"])
+                elif e.get("chunk_caps") or e.get("chunk_const") is not None:
+                    cap = (e.get("chunk_caps") or [e.get("chunk_const")])[0]
+                    ctx.violated("R2", k_, f"`{e['text'][:80]}` caps vmap's own chunk size at {cap}: a block of more than {cap} rows is differentiated in several passes of the VJP callable — more sweeps "
+                                 "than ceil(rows / k), and with retain_graph=False the second pass of the last block differentiates a freed graph", e["loc"])
+                else:
+                    ctx.undecided("R2", k_, f"vmap's chunk_size (`{e['kwargs'].get('chunk_size')}`) is not the row count of the block; whether it can be smaller was not decided", e["loc"])
+    # ... and, whatever the shape of the code, what the instance runs observe: a single-row sweep never runs batched (torch.vmap or
+    # autograd's is_grads_batched, which is vmap inside), and the sweeps are the ceil(m/k) blocks
+    for entry in ("backward", "mtl_backward"):
+        for rule, aspect in (("R3", "vmap"), ("R2", "partition")):
+            st, text, der = _inst.verdict(index, entry, aspect)
+            k_ = f"{entry}: instance runs, {aspect}"
+            if st == "ok":
+                ctx.ok(rule, k_, text, "", derivation=der)
+            elif st == "violated":
+                ctx.violated(rule, k_, text, "", derivation=der)
+            else:
+                ctx.notes.append(f"{k_}: {text}")
     _pipe.common_evidence(ctx, index)
     ctx.assumptions.append("value-independence from k reduces to R1 plus the vstack of the blocks in block order (C01 R2); vmap ≡ sequential numerically is not decided")
 
